@@ -240,6 +240,21 @@ def run(ctx, res):
         if not family.same(second, expb):
             res.violations.append({'key': None, 'sig': 'rewritten:udfs', 'what': 'the UDF file rewritten between two calls of one process: the second call gives %s, the same call alone gives %s'
                                    % (str(second)[:200], str(expb)[:200]), 'replay': {'calls': [b], 'index': 1}})
+    # the MAPPING file rewritten between two calls of one process, same path, same configuration text, same length (one character of a constant / template differs)
+    for rep in range(ctx.scale(4, 24)):
+        rows = [[str(i + 1), ['a', 'b', 'c'][(i + rep) % 3]] for i in range(2 + rep % 3)]
+        def mk(pred, templ):
+            return {'cfg': {'nquads': rep % 2 == 1, 'mode': ['NO', 'PARTIAL-AGGREGATIONS', 'MAXIMAL'][rep % 3]}, 'sources': [{'key': 'S0', 'kind': 'csv', 'cols': ['id', 'v'], 'rows': rows}],
+                    'doc': [{'id': EX + 'tm/T', 'src': 'S0', 'nonasserted': False, 'subj': tmq('templ', EX + templ + '/{id}'), 'sjoins': [], 'classes': [], 'sgraphs': [],
+                             'poms': [{'preds': [tmq('const', EX + 'p/' + pred)], 'objs': [{'m': tmq('ref', 'v'), 'lang': None, 'dt': None, 'joins': []}], 'graphs': []}]}]}
+        a, b = (mk('v', 'r'), mk('w', 'r')) if rep % 2 == 0 else (mk('v', 'r'), mk('v', 's'))
+        second = family.overwrite_run(ctx, a, b, mappings=True, style=(mapcase.Style(vocab='yarrrml') if rep % 4 >= 2 else None))[1]
+        expb = family.run_sequence(ctx, [b])[0]
+        res.evaluations += 1
+        res.count('shared-directory:rewritten-mapping-file')
+        if not family.same(second, expb):
+            res.violations.append({'key': None, 'sig': 'rewritten:mapping', 'what': 'the mapping file rewritten between two calls of one process: the second call gives %s, the same call alone gives %s'
+                                   % (str(second)[:200], str(expb)[:200]), 'replay': {'calls': [b], 'index': 1}})
     from .c10 import gen_table_case, xml_safe
     for k in ['csv', 'json', 'view', 'tsv'] * ctx.scale(1, 5):
         ta, tb = xml_safe(gen_table_case(ctx.rng)), xml_safe(gen_table_case(ctx.rng))
